@@ -69,12 +69,48 @@ def finish_own(ctx: Ctx, rule="R-C14-FINISH-OWN") -> None:
         init = ctx.func(f"{q}.__init__")
         # containers drained: receivers of pop / get_nowait inside finish
         drained = set()
+
+        def owned_element_removal(c) -> bool:
+            """`shared.remove(m)` / `shared.pop(m)` for m ranging over the elements whose recorded holder is this consumer (`... if holder is self`)."""
+            if c.func.attr not in ("remove", "pop", "discard") or len(c.args) != 1 or not isinstance(c.args[0], ast.Name):
+                return False
+            var = c.args[0].id
+            for lp in ast.walk(fin.node):
+                if isinstance(lp, ast.For) and any(x is c for x in ast.walk(lp)) and var in C.names_in(lp.target):
+                    it = C.inline_locals(fin, lp.iter, calls="all") or lp.iter
+                    tests = [t for comp in ast.walk(it) if isinstance(comp, (ast.ListComp, ast.GeneratorExp, ast.SetComp)) for g_ in comp.generators for t in g_.ifs]
+                    tests += [i.test for i in ast.walk(lp) if isinstance(i, ast.If) and any(x is c for b in i.body for x in ast.walk(b))]
+                    for t in tests:
+                        for cmp_ in ast.walk(t):
+                            if isinstance(cmp_, ast.Compare) and isinstance(cmp_.ops[0], (ast.Is, ast.Eq)) and "self" in (dotted(cmp_.left), dotted(cmp_.comparators[0])):
+                                return True
+            return False
+
+        n_owned = 0
         for c in ast.walk(fin.node):
-            if isinstance(c, ast.Call) and isinstance(c.func, ast.Attribute) and c.func.attr in ("pop", "get_nowait", "popleft", "popitem"):
+            if isinstance(c, ast.Call) and isinstance(c.func, ast.Attribute) and c.func.attr in ("pop", "get_nowait", "popleft", "popitem", "remove", "discard"):
                 recv = c.func.value
                 if isinstance(recv, ast.Attribute) and recv.attr == "_id_to_delivery_tag":
                     continue  # keyed pop of this consumer's own message ids
+                if owned_element_removal(c):
+                    n_owned += 1
+                    ctx.ok(rule, f"{q.split('.')[-1]}.finish removes {unparse(c)[:50]}", "one element at a time, restricted to the messages whose recorded holder is this consumer")
+                    continue
                 drained.add(C.utext(fin, recv))
+        if n_owned:
+            # the holder record finish() relies on is written for every message handed out, in the same atomic step as marking it held
+            cons = ctx.func(f"{q}.consume")
+            gcons = ctx.cfg(cons)
+            adds = [n for n in gcons.calls() if isinstance(n.ast.func, ast.Attribute) and n.ast.func.attr == "add" and "processing" in unparse(n.ast.func)]
+            recs = [n for n in gcons.nodes if n.kind == "store" and isinstance(n.ast, ast.Subscript) and dotted(n.meta.get("value")) == "self"]
+            ok_rec = bool(adds) and bool(recs) and all(
+                flow.must_pass(gcons, a.id, [gcons.exit.id] + [x.id for x in gcons.nodes if flow.is_suspension(x) and x.id in flow.reach(gcons, [a.id], flow.NORMAL_KINDS)],
+                               [r_.id for r_ in recs], flow.NORMAL_KINDS) for a in adds)
+            ctx.check(ok_rec, rule, cons, f"{q.split('.')[-1]}.consume records itself as holder of every message it marks held", "holders[msg] = self before the next suspension point",
+                      f"{cons.short()} does not record the holder of each handed-out message (atomically with marking it held): finish() filters by that record, so unrecorded messages are "
+                      "never given back and wrongly recorded ones are taken from another consumer", instance=f"{q.split('.')[-1]}: holder recorded")
+        if n_owned and not drained:
+            continue
         if not ctx.check(bool(drained), rule, fin, f"{fin.short()}: drains a container", str(sorted(drained)), f"{fin.short()} returns nothing", instance=f"{q.split('.')[-1]}: drains"):
             continue
         for d in sorted(drained):
